@@ -8,6 +8,8 @@ import Pamiq.Model.ProtoDriver
 import Pamiq.Model.WebQDriver
 import Pamiq.Model.TreeDriver
 import Pamiq.Model.ModelsDriver
+import Pamiq.Model.BufferDriver
+import Pamiq.Model.KeeperDriver
 open Pamiq
 
 structure DState where
@@ -19,6 +21,10 @@ structure DState where
   tree : Tree.DSt := {}
   -- C14 Models
   models : Option Models.Sys := none
+  -- C11 (Buffer)
+  buf : Buffer.BufSt := {}
+  -- C18 (Keeper)
+  keeper : Option Keeper.St := none
 
 def handle (st : DState) (line : String) : DState × String :=
   match (line.trimAscii.toString.splitOn " ").filter (· ≠ "") with
@@ -43,6 +49,14 @@ def handle (st : DState) (line : String) : DState × String :=
   | "models" :: rest =>
     let (m, out) := Models.drive st.models rest
     ({ st with models := m }, out)
+  -- C11 (Buffer)
+  | "buf" :: rest =>
+    let (b, out) := Buffer.drive st.buf rest
+    ({ st with buf := b }, out)
+  -- C18 (Keeper)
+  | "keeper" :: rest =>
+    let (k, out) := Keeper.drive st.keeper rest
+    ({ st with keeper := k }, out)
   | _ => (st, "bad-op")
 
 partial def loop (h : IO.FS.Stream) (out : IO.FS.Stream) (st : DState) : IO Unit := do
